@@ -1925,14 +1925,21 @@ def split_pad_to_sub_pad(op, arch, nng):
         return op
 
     inp, pad_tensor = op.inputs
-    if len(pad_tensor.values) == 3 or sum(pad_tensor.values[-1, :]) == 0 or sum(pad_tensor.values[0, :]) == 0:
+    # convert_pad_to_concat handles padding of the first or of the last dimension on its own only, so such a padding
+    # is split off into this (outer) Pad and everything else is left to the sub Pad that feeds it
+    pads = pad_tensor.values
+    if len(pads) == 4 and sum(pads[0, :]) != 0 and np.any(pads[1:] != 0):
+        axis = 0
+    elif sum(pads[-1, :]) != 0 and np.any(pads[:-1] != 0):
+        axis = len(pads) - 1
+    else:
         return op
 
     pad_sub = op.clone("_sub")
 
     dtype = op.outputs[0].dtype
     out_shape = op.outputs[0].shape.copy()
-    out_shape[0] -= sum(pad_tensor.values[0])
+    out_shape[axis - len(pads)] -= sum(pads[axis])
     pad_sub_out = Tensor(out_shape, dtype, f"{op.outputs[0].name}_sub")
     pad_sub_out.quantization = op.outputs[0].quantization
 
@@ -1943,8 +1950,9 @@ def split_pad_to_sub_pad(op, arch, nng):
     pad_tensor2 = create_const_tensor(
             f"{pad_tensor.name}_sub", pad_shape, pad_dtype, pad_value, quantization=quantization)
 
-    pad_tensor.values[3] = [0, 0]
-    pad_tensor2.values[0] = [0, 0]
+    pad_tensor.values[:axis] = 0
+    pad_tensor.values[axis + 1 :] = 0
+    pad_tensor2.values[axis] = [0, 0]
 
     op.set_input_tensor(pad_sub_out, 0)
     pad_sub.set_output_tensor(pad_sub_out)
